@@ -83,13 +83,12 @@ Proved for trailer sections that differ from their announcement, and for every s
 * `serve_roundtrip_any_trailers` (+ `any_trailers_generalises`, `serve_any_trailers_in_sync`, `spec_decodes_any_trailers`,
   `serve_refines_spec_any_trailers`): `serve_roundtrip_ows` with
   the clause "names of the section = announced names, in order" replaced by "last field not forbidden" (`wfOReqT`).
-* `trailer_decl_spellings`: `Trailer.SetTrailers` on ANY value without HTAB = the RFC 7230 `#field-name` list rule
-  (split at commas, optional whitespace stripped, empty elements — `a,,b`, trailing comma — ignored), names normalised,
-  forbidden names dropped, refused exactly when the LAST element is forbidden.  FOUND BY THIS PROOF:
-  `trailer_decl_spellings_fails_at` — hertz strips SP only, so `Trailer: a,<HTAB>b` announces the name `<HTAB>b` and the
-  trailer field `b` is lost (real server: replayed, finding `trailer-decl-htab`, `patches/trailer-decl-list.diff`).
-  `trailer_decl_two_fields_last_wins`: of two `Trailer` fields only the last one counts (RFC 7230 §3.2.2: they
-  combine), the trailer announced by the first is lost (finding `trailer-decl-multi`).
+* `trailer_decl_spellings`: `Trailer.SetTrailers` on ANY value = the RFC 7230 `#field-name` list rule
+  (split at commas, optional whitespace SP / HTAB stripped, empty elements — `a,,b`, trailing comma — ignored), names
+  normalised, forbidden names dropped, refused exactly when the LAST element is forbidden.  FOUND BY THE FIRST VERSION OF
+  THIS PROOF (it needed "no HTAB"): hertz stripped SP only, so `Trailer: a,<HTAB>b` announced the name `<HTAB>b` and the
+  trailer field `b` was lost; of two `Trailer` fields only the last one counted.  Both repaired in `/repo` 117944e
+  (`patches/trailer-decl-list.diff`); regression theorems `trailer_decl_htab_repaired`, `trailer_decl_two_fields_combine`.
 
 TODO-OPEN (still decided per explored case by the spec step, `Driver/H1Spec.lean:c01`, which compares what the
 implementation's handler saw with the independent strict decoder `Spec/Http.lean`):
@@ -612,13 +611,13 @@ theorem serve_any_trailers_in_sync (cfg : Cfg) (e : End) (r : OReq) (h : wfOReqT
 the names are the elements of the RFC 7230 list (`listElems`: split at commas, optional whitespace stripped, empty
 elements ignored — so `a,b`, `a ,b`, `a,,b`, `a, b,` all announce `a`, `b`), normalised, forbidden names dropped; the
 declaration is refused (400) exactly when its LAST element is a forbidden name. -/
-theorem trailer_decl_spellings_partial (dn : Bool) (v : Bytes) (hnt : ∀ c ∈ v, c ≠ 9) :
+theorem trailer_decl_spellings (dn : Bool) (v : Bytes) :
     setTrailers dn v =
       (((listElems v).map (normalizeKey dn)).filter (fun k => !isBadTrailer k),
        match ((listElems v).map (normalizeKey dn)).getLast? with
        | some k => isBadTrailer k
        | none => false) :=
-  setTrailers_list dn v hnt
+  setTrailers_list dn v
 
 /-- `a,b` / `a ,b` / `a,,b` / ` a, b,` / `,a,  b , ,` announce the same two names -/
 example : ([[97, 44, 98], [97, 32, 44, 98], [97, 44, 44, 98], [32, 97, 44, 32, 98, 44], [44, 97, 44, 32, 32, 98, 32, 44, 32, 44]].map
@@ -628,25 +627,23 @@ example : ([[97, 44, 98], [97, 32, 44, 98], [97, 44, 44, 98], [32, 97, 44, 32, 9
 example : setTrailers false [120, 44, 32, 72, 111, 115, 116] = ([[88]], true) ∧
     setTrailers false [72, 111, 115, 116, 44, 32, 120] = ([[88]], false) := by decide +kernel
 
-/-- FOUND BY THIS PROOF (hertz as it stands, `pkg/protocol/trailer.go:SetTrailers` strips `' '` only): with a HTAB as
-optional whitespace, `Trailer: a,<HTAB>b`, the announced names are `A` and `<HTAB>b` instead of `A`, `B`; the trailer
-field `b` of the section is then dropped and the handler sees an entry `<HTAB>b` with the empty value. -/
-theorem trailer_decl_spellings_fails_at :
-    ¬ (setTrailers false [97, 44, 9, 98] =
-        (((listElems [97, 44, 9, 98]).map (normalizeKey false)).filter (fun k => !isBadTrailer k), false)) ∧
-    setTrailers false [97, 44, 9, 98] = ([[65], [9, 98]], false) ∧ listElems [97, 44, 9, 98] = [[97], [98]] := by
+/-- FOUND BY THE FIRST VERSION OF THIS PROOF, which needed the hypothesis "no HTAB in the value" (hertz stripped `' '`
+only: `Trailer: a,<HTAB>b` announced `A` and `<HTAB>b`, the trailer field `b` was dropped and the handler saw an entry
+`<HTAB>b` with the empty value).  Repaired in `/repo` 117944e; regression theorem on the former witness. -/
+theorem trailer_decl_htab_repaired :
+    setTrailers false [97, 44, 9, 98] = ([[65], [66]], false) ∧ listElems [97, 44, 9, 98] = [[97], [98]] := by
   decide +kernel
 
-/-- `POST /`, `Trailer: a`, `Trailer: b`, chunked, `1 x`, `0`, trailer section `a: 1`, `b: 2`: only the LAST `Trailer`
-field counts (each `SetTrailers` call starts with `ResetSkipNormalize`), the handler is handed `B: 2` only — by
-RFC 7230 §3.2.2 the two fields announce `a, b`.  Replayed on the real server: same (finding `trailer-decl-multi`). -/
-theorem trailer_decl_two_fields_last_wins :
+/-- `POST /`, `Trailer: a`, `Trailer: b`, chunked, `1 x`, `0`, trailer section `a: 1`, `b: 2`: the two `Trailer` fields
+combine (RFC 7230 §3.2.2) and the handler is handed `A: 1`, `B: 2`.  Before 117944e only the LAST `Trailer` field counted
+(each `SetTrailers` call started with `ResetSkipNormalize`) and the handler got `B: 2` only; replayed on the real server. -/
+theorem trailer_decl_two_fields_combine :
     (handled (serve {} .eof
       [80, 79, 83, 84, 32, 47, 32, 72, 84, 84, 80, 47, 49, 46, 49, 13, 10,
        84, 114, 97, 105, 108, 101, 114, 58, 32, 97, 13, 10, 84, 114, 97, 105, 108, 101, 114, 58, 32, 98, 13, 10,
        84, 114, 97, 110, 115, 102, 101, 114, 45, 69, 110, 99, 111, 100, 105, 110, 103, 58, 32, 99, 104, 117, 110, 107, 101, 100, 13, 10, 13, 10,
        49, 13, 10, 120, 13, 10, 48, 13, 10, 97, 58, 32, 49, 13, 10, 98, 58, 32, 50, 13, 10, 13, 10])).map (fun s => (s.body, s.trailers)) =
-      [([120], [([66], [50])])] := by
+      [([120], [([65], [49]), ([66], [50])])] := by
   decide +kernel
 
 /-- These streams are in the specification's language: the independent strict decoder accepts every stream of requests
